@@ -41,9 +41,15 @@ TRUSTED = [
     "fifths_mode_to_key_name / key_name_to_fifths_mode (C12) map the 30 keys one to one",
 ]
 PARTIAL = [
-    "end-to-end export->import theorem is stated per mechanism (quantisation, bucket order, pairing, ids, controls, "
-    "merging) rather than as one composed statement about PerformedPart objects",
-    "sound_off of loaded notes (C14) is not part of this check",
+    "notes_kept_tracks / notes_kept_part are proved for the unmerged file; under merging on either side the theorems give "
+    "merge_tracks (multiset and order of (tick, message)) and pairing_sound (under its alternation hypothesis) separately; "
+    "the composed behaviour is compared on every merged case",
+    "programs under merging: per-track theorem only (programs_kept_tracks); whole-file multiset compared, not proved",
+    "the loader's track renumbering (position among the tracks that become parts; sanitize_track_numbers) is modelled and "
+    "compared (`san`, `load` requests), there is no theorem about it here (C14 proves uniqueness)",
+    "binary64: tick rounding at x.5 images and adjust_time sums are compared with tolerance, not proved",
+    "sound_off of loaded notes (C14) is not part of this check; PerformedPart.mpq of a loaded part is the default tempo "
+    "(documented: the loader does not retain tempo) and is not checked",
 ]
 RULE = ("structured random performances (1-4 parts/tracks, channels 0-15, velocities 1-127, binary64 times incl. "
         "tick-grid values and x.5 boundaries, touching and zero-length notes, unsorted note lists, controls of any "
@@ -388,7 +394,7 @@ def gen_adj(rng, tier):
 
 
 def cases(rng, tier):
-    n = {"quick": 500, "thorough": 12000, "search": 4000}.get(tier, 500)
+    n = {"quick": 1200, "thorough": 15000, "search": 4000}.get(tier, 1200)
     # every configuration of the finite part of the quantifier on a few performances
     for ppq in PPQS:
         for mpq in MPQS:
@@ -757,36 +763,11 @@ def _event_rows(view, ppq, mpq):
 
 
 def _match_rows(exp, got):
-    """exp: [(payload, set of ticks)], got: [(payload, tick)]: is there a bijection with tick in the set?
-    (sets are one tick or two adjacent ticks; a greedy assignment in order of tick is exact for those)"""
+    """exp: [(payload, set of ticks)], got: [(payload, tick)]: is there a bijection with tick in the set?"""
     if len(exp) != len(got):
         return False
-    by = {}
-    for pl, ticks in exp:
-        by.setdefault(pl, []).append(sorted(ticks))
-    gy = {}
-    for pl, t in got:
-        gy.setdefault(pl, []).append(t)
-    if set(by) != set(gy):
-        return False
-    for pl in by:
-        a = sorted(by[pl], key=lambda s: (s[0], s[-1]))
-        b = sorted(gy[pl])
-        if len(a) != len(b):
-            return False
-        for s, t in zip(a, b):
-            if t not in s:
-                # intervals [k] / [k,k+1] sorted by (lo, hi) against sorted points: try the swap-tolerant check
-                return _match_slow(a, b)
-    return True
-
-
-def _match_slow(a, b):
-    import itertools
-
-    if len(a) > 7:
-        return all(any(t in s for s in a) for t in b) and all(any(t in s for t in b) for s in a)
-    return any(all(t in s for s, t in zip(a, perm)) for perm in itertools.permutations(b))
+    le, lg = unmatched(exp, got, lambda e, g: e[0] == g[0] and g[1] in e[1])
+    return not le and not lg
 
 
 def oracle_export(ev, d, view, mf, tracks):
@@ -838,19 +819,8 @@ def oracle_export(ev, d, view, mf, tracks):
                 # default program 0 for channels of parts without programs is "no program"
                 nop = set(pi for pi, p in enumerate(view) if not p["programs"])
                 allowed = set((r[2][0], 0) for r in mine if r[4] in nop and r[1] in ("on", "ctl"))
-                extra = [x for x in g if x[0] in allowed]
-                base = [x for x in g if x[0] not in allowed]
-                # a real program 0 on such a channel cannot exist (the part has no programs), but one of ANOTHER part can
-                need = [x for x in exp]
-                pool = list(g)
-                ok = True
-                for pl, ticks in need:
-                    hit = [x for x in pool if x[0] == pl and x[1] in ticks]
-                    if not hit:
-                        ok = False
-                        break
-                    pool.remove(hit[0])
-                if not ok or any(x[0] not in allowed for x in pool):
+                le, lg = unmatched(exp, g, lambda e, x: e[0] == x[0] and x[1] in e[1])
+                if le or any(g[j][0] not in allowed for j in lg):
                     ev.oracle.append("export programs: track %d holds %r, the performance has %r (default program 0 allowed on %r)"
                                      % (fi, sorted(g)[:8], sorted((a, sorted(b)) for a, b in exp)[:8], sorted(allowed)[:8]))
                 continue
@@ -858,6 +828,26 @@ def oracle_export(ev, d, view, mf, tracks):
                 ev.oracle.append("export %s: track %d holds %r, the performance has (payload, nearest ticks) %r"
                                  % (what, fi, sorted(g)[:8], sorted((a, sorted(b)) for a, b in exp)[:8]))
                 break
+
+
+def unmatched(exp, got, ok):
+    """maximum bipartite matching (Kuhn) between exp and got under the predicate ok(e, g);
+    returns (indices of exp left unmatched, indices of got left unmatched)"""
+    adj = [[j for j, g in enumerate(got) if ok(e, g)] for e in exp]
+    mg = [-1] * len(got)
+
+    def aug(i, seen):
+        for j in adj[i]:
+            if j in seen:
+                continue
+            seen.add(j)
+            if mg[j] < 0 or aug(mg[j], seen):
+                mg[j] = i
+                return True
+        return False
+
+    left = [i for i in sorted(range(len(exp)), key=lambda i: len(adj[i])) if not aug(i, set())]
+    return left, [j for j in range(len(got)) if mg[j] < 0]
 
 
 def oracle_roundtrip(ev, d, view, perf):
@@ -889,14 +879,11 @@ def oracle_roundtrip(ev, d, view, perf):
         if sorted(x[0] for x in exp) != sorted(x[0] for x in got):
             ev.oracle.append("roundtrip %s: original %s %r, loaded %r" % (what, fields, sorted(x[0] for x in exp)[:8], sorted(x[0] for x in got)[:8]))
             return
-        pool = list(got)
-        for pl, t in sorted(exp, key=lambda x: (x[0], x[1])):
-            hit = [x for x in pool if x[0] == pl and all(times_ok(a, b) for a, b in zip(x[1], t))]
-            if not hit:
-                ev.oracle.append("roundtrip %s: original %s %r at %r s has no loaded counterpart within half a tick (%r s); loaded %r"
-                                 % (what, fields, pl, t, float(half), [x for x in pool if x[0] == pl][:4]))
-                return
-            pool.remove(hit[0])
+        le, lg = unmatched(exp, got, lambda e, g: e[0] == g[0] and all(times_ok(a, b) for a, b in zip(g[1], e[1])))
+        if le:
+            pl, t = exp[le[0]]
+            ev.oracle.append("roundtrip %s: original %s %r at %r s has no loaded counterpart within half a tick (%r s); loaded %r"
+                             % (what, fields, pl, t, float(half), [x for x in got if x[0] == pl][:4]))
 
     # notes (only when no two notes of one channel and pitch overlap or meet across parts/tracks within a loaded track)
     note_rows = [(rank(n[3]), n[2], n[0], n[1], n[4], n[5], pi, n[3]) for pi, p in enumerate(view) for n in p["notes"]]
@@ -927,15 +914,8 @@ def oracle_roundtrip(ev, d, view, perf):
     got = [((c["program"], c["channel"], c["track"]), (c["time"],)) for pp in lp for c in pp.programs]
     nop = [pi for pi, p in enumerate(view) if not p["programs"]]
     allowed = set((0, r[2][0], rank(r[0])) for r in rows if r[4] in nop and r[1] in ("on", "ctl"))
-    pool = list(got)
-    bad = False
-    for pl, t in exp:
-        hit = [x for x in pool if x[0] == pl and times_ok(x[1][0], t[0])]
-        if not hit:
-            bad = True
-            break
-        pool.remove(hit[0])
-    if bad or any(x[0] not in allowed for x in pool):
+    le, lg = unmatched(exp, got, lambda e, g: e[0] == g[0] and times_ok(g[1][0], e[1][0]))
+    if le or any(got[j][0] not in allowed for j in lg):
         ev.oracle.append("roundtrip programs: original (program, channel, track) %r, loaded %r; only a default program 0 on %r may be added"
                          % (sorted(x[0] for x in exp)[:8], sorted(x[0] for x in got)[:8], sorted(allowed)[:8]))
     exp = [((c[1], "minor" if c[2] else "major", rank(c[3])), (c[0],)) for p in view for c in p["keysigs"]]
